@@ -87,9 +87,38 @@ macro_rules! schema_ok {
 
 // @h schema_opt_u32 props=C18 tier=quick kind=complete vars="v:Option<u32>" fns="ser/write_with_names.rs:SchemaWriter::write,ser/write_with_names.rs:SchemaWriter::align,ser/write_with_names.rs:SchemaWriter::write_bytes"
 schema_ok!(schema_opt_u32, Option<u32>, 0, 32, 17);
-// @h schema_dt props=C18,C05 tier=quick kind=complete vars="v:DT(u32,Option<u16>)" fns="ser/write_with_names.rs:SchemaWriter"
+// @h schema_dt props=C18,C05 tier=thorough kind=complete vars="v:DT(u32,Option<u16>)" fns="ser/write_with_names.rs:SchemaWriter"
 schema_ok!(schema_dt, DT, 0, 32, 17);
 // @h schema_z8 props=C18,C05 tier=thorough kind=complete vars="v:Z8 (padding row + zero-copy block)" fns="ser/write_with_names.rs:SchemaWriter::align"
 schema_ok!(schema_z8, Z8, 0, 32, 17);
 // @h schema_vec_u16 props=C18 tier=thorough kind=bounded bound="len<=2" vars="v:Vec<u16>" fns="ser/write_with_names.rs:SchemaWriter"
 schema_ok!(schema_vec_u16, Vec<u16>, 2, 32, 17);
+
+/// padding row longer than a word: a 16-byte unit reached at stream offset 3
+// @h schema_pad_u128 props=C18 tier=quick kind=complete vars="v:[u128;1] written at stream offset 3 (13 padding bytes)" fns="ser/write_with_names.rs:SchemaWriter::align"
+#[kani::proof]
+#[kani::unwind(17)]
+#[kani::stub(alloc::fmt::format, crate::c18_schema::stub_format)]
+pub fn schema_pad_u128() {
+    let v: [u128; 1] = kani::any();
+    let mut plain = ArrSink::<48>::new();
+    let (r, _) = ser_at(&v, 3, &mut plain);
+    assert!(r.is_ok(), "[C01/ser.ok] serialization into an infallible sink succeeds");
+    let mut rec = ArrSink::<48>::new();
+    let mut w = WriterWithPos::new(&mut rec);
+    let _ = w.write_all(&[0u8; 3]);
+    let mut sw = SchemaWriter::new(&mut w);
+    let rs = sw.write("ROOT", &v);
+    assert!(rs.is_ok(), "[C18/ok] serialization with schema recording succeeds");
+    let rows = sw.schema.0;
+    assert!(same_bytes(plain.bytes(), rec.bytes()), "[C18/same_bytes] recording writes byte-for-byte the plain stream");
+    let nr = rows.len();
+    assert!(nr == 3, "[C18/rows] ROOT, PADDING and the zero-copy block are recorded");
+    if nr == 3 {
+        assert!(rows[1].offset == 3 && rows[1].size == 13, "[C18/padding.row] the padding row covers exactly the zero gap");
+        assert!(rows[2].offset == 16 && rows[2].size == 16 && rows[2].align == 16, "[C18/aligned] a block of zero-copy data starts at a multiple of its recorded alignment");
+    }
+    let i = sym_index(13);
+    assert!(rec.buf[3 + i] == 0, "[C18/padding.zero] padding rows cover only zero bytes");
+    core::mem::forget(rows);
+}
